@@ -138,7 +138,21 @@ def run(tier: str, seed: int) -> int:
         cov['rule'] = ('every (class, optional-block set, copy target, mutable cell or mutating method, side) of the Alias model '
                        '(specs/Alias_edges*.cfg) executed on real objects; every mutable cell of the real heap of each case; '
                        'copies through collapse_one; seeded multi-step sequences; every operator/operand-type row of OpTable')
-        known, new = core.classify(PROP, [sig_of(m) for m in allm])
+        # 6. the Keyvalues mutator model (KvTree): copying operators leave operands unchanged and
+        #    copies (also of empty blocks, at any depth) are independent
+        from props import sub_kvtree
+        kv = sub_kvtree.collect(tier, seed, work)
+        cov['states'] += kv['cov']['states']
+        cov['transitions'] += kv['cov']['transitions']
+        cov['models'].update(kv['cov']['models'])
+        for k in ('kvtree_actions', 'kvtree_edges_replayed', 'kvtree_records'):
+            cov[k] = kv['cov'][k]
+        cov['traces_validated_against_impl'] += kv['records']
+        cov['records_validated'] += kv['records']
+        cov['samples'] = samples + kv['samples'][:1]
+        all_sigs = [sig_of(m) for m in allm] + kv['sigs']
+        cov['mismatches'] = len(all_sigs)
+        known, new = core.classify(PROP, all_sigs)
         groups: dict = {}
         for s in new:
             gk = (s.get('kind'), s.get('action'), s['clause'], s.get('what'), s.get('how'), s.get('side'), s.get('opts'))
